@@ -93,6 +93,39 @@ TRaise == /\ IsEvent("raise")
                 /\ UNCHANGED vars
           /\ left' = Ev.l /\ right' = Ev.r
 
+-----------------------------------------------------------------------------
+(* Shape mode.  Executions of the repository's own tests use real atoms (floats, quantities,      *)
+(* substances ...) whose values the tracer cannot turn into trees; it logs every atom as the      *)
+(* opaque tree <<"*">>.  The machine never looks inside a tree, so the abstraction commutes with  *)
+(* every step: the spec applies Abs to what the machine computes and compares with the log.        *)
+RECURSIVE AbsItem(_)
+AbsItem(i) == IF i.k = "t" THEN T(<<"*">>)
+              ELSE IF i.k = "f" THEN [i EXCEPT !.a = [j \in 1..Len(i.a) |-> AbsItem(i.a[j])]]
+              ELSE i
+AbsSeq(s) == [j \in 1..Len(s) |-> AbsItem(s[j])]
+
+ADispatch == /\ IsEvent("disp") /\ pc = "loop" /\ right # <<>>
+             /\ LET d == Dispatch(left, right, StepOps(stepi), Steps[stepi].otype) IN
+                \* an operation on real atoms may also raise for reasons of their VALUES (unit mismatch, domain
+                \* error): then only the fact that an operator of the step was applied is checked
+                /\ (d.err => Ev.err)
+                /\ (Ev.err /\ ~d.err) => InStep(Head(right), StepOps(stepi))
+                /\ ~Ev.err => (AbsSeq(d.l) = Ev.l /\ AbsSeq(d.r) = Ev.r)
+                /\ left' = Ev.l /\ right' = Ev.r
+                /\ IF Ev.err THEN Raise ELSE UNCHANGED <<pc, inp, pos, buf, stepi, out, l0, r0, ncalls, plan, outs>>
+
+AReturn == /\ IsEvent("end") /\ pc = "steps" /\ NextStepR(stepi) > Len(Steps)
+           /\ Len(left) = 0 /\ Len(right) <= 1
+           /\ LET g == GetRight(right) IN
+              /\ right' = g.r /\ UNCHANGED left /\ pc' = "idle"
+              /\ out' = Outcome([err |-> FALSE, v |-> g.v])
+              /\ outs' = Append(outs, out')
+           /\ left' = Ev.l /\ right' = Ev.r
+           /\ UNCHANGED <<inp, pos, buf, stepi, l0, r0, ncalls, plan>>
+
+ANext == TChoose \/ TBegin \/ TAppend \/ TTokEnd \/ TStep \/ ADispatch \/ TLoopEnd \/ AReturn \/ TRaise
+ASpec == TInit /\ [][ANext]_tvars
+
 TNext == TChoose \/ TBegin \/ TAppend \/ TTokEnd \/ TStep \/ TDispatch \/ TLoopEnd \/ TReturn \/ TRaise
 
 TSpec == TInit /\ [][TNext]_tvars
